@@ -156,6 +156,11 @@ func (eval Evaluator) PartialTracesSum(ctIn *Ciphertext, offset, n int, opOut *C
 
 	params := eval.GetRLWEParameters()
 
+	// The hoisted automorphisms used below require an auxiliary modulus.
+	if n > 1 && params.PCount() == 0 {
+		return fmt.Errorf("partialtrace: unsupported parameters (no auxiliary modulus P)")
+	}
+
 	levelQ := ctIn.Level()
 	levelP := params.PCount() - 1
 
